@@ -531,6 +531,11 @@ func check(prop, tier string) int {
 	if level == "" {
 		level = "exploration"
 	}
+	if level == "model_checking" && distinct > 0 {
+		// workers partition the search; "states" is the number of distinct canonical states over all workers
+		cov["states_sum_over_workers"] = counters["states"]
+		cov["states"] = distinct
+	}
 	if level == "model_checking" {
 		if _, ok := cov["traces_validated_against_impl"]; !ok {
 			cov["traces_validated_against_impl"] = counters["transitions"]
